@@ -131,7 +131,7 @@ def scan (m : SourceMap) (conv : String) : List Frame → List FrameInfo → Lis
     match get m ⟨f.file, f.line⟩ with
     | some o => acc ++ [FrameInfo.ofOrigin o]                       -- append, break
     | none =>
-      if f.file = conv then scan m conv rest (markAllow acc)       -- elided, previous frame marked
+      if Gen.Errors.converterFrameTest f.file conv then scan m conv rest (markAllow acc)   -- elided, previous frame marked
       else scan m conv rest (acc ++ [FrameInfo.plain f])
 
 /-- `error_utils._stack_trace_inside_mapped_code(tb, source_map, converter_filename)`;
@@ -143,7 +143,7 @@ def stackInsideMappedCode (tb : List Frame) (m : SourceMap) (conv : String) : Li
 def elide (conv : String) : List Frame → List FrameInfo → List FrameInfo
   | [], acc => acc
   | f :: rest, acc =>
-    if f.file = conv then elide conv rest (markAllow acc) else elide conv rest (acc ++ [FrameInfo.plain f])
+    if Gen.Errors.converterFrameTest f.file conv then elide conv rest (markAllow acc) else elide conv rest (acc ++ [FrameInfo.plain f])
 
 /-- `ErrorMetadataBase`: `translated_stack` (innermost first) and `cause_message`. -/
 structure Metadata where
